@@ -227,11 +227,12 @@ def run_judge(ctx, module, trace_path, *, cfg=None, timeout=1800, heap="12g"):
         dst = os.path.join(cap, f"{module}__{cfg}.ndjson")
         if not os.path.exists(dst):
             os.makedirs(cap, exist_ok=True)
+            want = int(os.environ.get("VERIF_CAPTURE_N", "1500"))
+            step = max(1, n // want)     # evenly spaced, so that every family of the trace is represented
             with open(trace_path) as fi, open(dst, "w") as fo:
                 for i, line in enumerate(fi):
-                    if i >= int(os.environ.get("VERIF_CAPTURE_N", "1500")):
-                        break
-                    fo.write(line)
+                    if i % step == 0:
+                        fo.write(line)
     r = run_tlc(ctx, module, cfg, workers=1, env={"TRACE": trace_path}, timeout=timeout, heap=heap,
                 want_replay=False, deque=True)
     consumed = None
